@@ -50,7 +50,16 @@ var factProbes []func(f *factSet)
 func probe(leanOut, jsonOut string) {
 	f := &factSet{nats: map[string]int{}, lists: map[string][]int{}, lists2: map[string][][]int{}, cases: map[string]map[string]string{}}
 	for _, p := range factProbes {
-		p(f)
+		// a probe that panics on this tree leaves its facts out: only the ties that use them stop
+		// building (and the property they belong to reports it); the other properties are unaffected
+		func() {
+			defer func() {
+				if r := recover(); r != nil {
+					fmt.Fprintf(os.Stderr, "probe panicked: %v\n", r)
+				}
+			}()
+			p(f)
+		}()
 	}
 	var b strings.Builder
 	b.WriteString("/- REGENERATED on every run by `vh probe` from /repo's working tree.  Do not edit. -/\nnamespace RV.Facts.Generated\n\n")
